@@ -348,4 +348,4 @@ def r168(ctx, wr, rule='R16.8'):
                     ctx.ob(rule, '%s.%s:key-value-text-decoded-tolerantly:%s' % (mname, q, norm(c)[:40]),
                            isinstance(kw, ast.Constant) and kw.value is True,
                            '`%s`: user keys and values are arbitrary bytes; a strict decode raises on the first non-UTF-8 one' % norm(c), m.loc(c))
-    ctx.floor(rule, 'decodes of key-value text', n, 2)
+    ctx.stat('%s decodes of key-value text' % rule, n)
